@@ -2,7 +2,7 @@ SPECIFICATION RSpec
 CONSTANTS
   Vars = {"a", "b", "c"}
   RTerms = 3
-  RCoef = 3
+  RCoef = 2
   RBound = 4
   RBuilds = 1
   CoefNeg = 0
